@@ -3,7 +3,9 @@ package checks
 import (
 	"context"
 	"fmt"
+	"runtime"
 	"runtime/debug"
+	"sync"
 	"time"
 
 	sdcpb "github.com/sdcio/sdc-protos/sdcpb"
@@ -24,6 +26,10 @@ func runC19(rc *sim.RunCtx) {
 	n := 1 + t.Choose(3)
 	for s := 0; s < n; s++ {
 		h.Step(s)
+	}
+	if t.Bool(1, 6) {
+		c19WriterLeg(rc, w)
+		return
 	}
 	sched := sim.NewSched(rc, 250*time.Millisecond, time.Second, 5*time.Second)
 	kind := []string{"subscribe", "getdata", "watchdeviations"}[t.Weighted([]int{5, 3, 3})]
@@ -207,12 +213,100 @@ func runC19(rc *sim.RunCtx) {
 func init() {
 	Register(&sim.Check{
 		ID: "C19", Level: "exploration", Run: runC19,
-		Rule: "after a short history, one streaming RPC (Server.Subscribe with 1-4 subscriptions and 1-3 s intervals, Server.GetData in one of the 4 encodings, Server.WatchDeviations with the real DeviationMgr) runs against a fake server stream whose Send parks under the seeded scheduler and can fail at index k (3 error kinds; context cancelled 0/100 ms/2 s later or never), stall (500 ms/3 s/until cancel) or be slow; the client cancels at a drawn 250 ms tick. Oracle: handler returns within 2 x largest interval + 5 s after the stream ended, no panic, no goroutine left at bubble end. Non-trivial = any fault/cancel mode or >=2 subscriptions; distinct = (rpc, mode, indices, #subscriptions).",
+		Rule: "after a short history, one streaming RPC (Server.Subscribe with 1-4 subscriptions and 1-3 s intervals, Server.GetData in one of the 4 encodings, Server.WatchDeviations with the real DeviationMgr) runs against a fake server stream whose Send parks under the seeded scheduler and can fail at index k (3 error kinds; context cancelled 0/100 ms/2 s later or never), stall (500 ms/3 s/until cancel) or be slow; the client cancels at a drawn 250 ms tick. Oracle: handler returns within 2 x largest interval + 5 s after the stream ended, no panic, no goroutine left at bubble end. A sixth of the runs are the writer leg: a stream of another client is open (its client not reading), DeleteDataStore of an unknown name is queued, a second streaming RPC starts and its client goes away - its handler must return (no simulated time needed; the leg yields the processor a bounded number of times). Non-trivial = any fault/cancel mode or >=2 subscriptions; distinct = (rpc, mode, indices, #subscriptions).",
 		Real: append(append([]string{}, realCore...), "pkg/server GetData/Subscribe/WatchDeviations handlers", "pkg/datastore Get/Subscribe/DeviationMgr/runDeviationUpdate"), Stub: append(append([]string{}, stubCore...), "gRPC server streams (fake Send/Context)"),
 		CrashIsViolation: true, HangIsViolation: true,
-		RequiredProbes: []string{"rpc-subscribe", "rpc-getdata", "rpc-watchdeviations", "multi-subscription", "mode-send-fail", "mode-cancel", "send-fail-context-alive"},
+		RequiredProbes: []string{"rpc-subscribe", "rpc-getdata", "rpc-watchdeviations", "multi-subscription", "mode-send-fail", "mode-cancel", "send-fail-context-alive", "leg-writer-while-streaming"},
 		QuickSeconds:   30, ThoroughSeconds: 480,
 	})
+}
+
+// c19WriterLeg: a healthy long-lived stream A is open, a management call that needs the server's datastore map exclusively
+// arrives (DeleteDataStore of a name that does not exist), then a second streaming RPC B starts and its client goes away.
+// B's handler must return although A is still open. Nothing in this leg needs simulated time to pass: the goroutines only
+// have to be scheduled, so the leg yields the processor a bounded number of times instead of sleeping (a handler that is
+// queued on a lock is not "durably blocked" for testing/synctest, the fake clock would never advance).
+func c19WriterLeg(rc *sim.RunCtx, w *world.World) {
+	t := rc.T
+	rc.Probe("leg-writer-while-streaming")
+	rc.NonTrivial()
+	root := &sdcpb.Path{Elem: []*sdcpb.PathElem{{Name: "sys"}}}
+	spinUntil := func(done func() bool, n int) bool {
+		for i := 0; i < n; i++ {
+			if done() {
+				return true
+			}
+			runtime.Gosched()
+		}
+		return done()
+	}
+	var mu sync.Mutex
+	finished := map[string]bool{}
+	isDone := func(k string) func() bool {
+		return func() bool { mu.Lock(); defer mu.Unlock(); return finished[k] }
+	}
+	start := func(name, kind string, stall bool) (end func()) {
+		plan := world.StreamPlan{FailAt: -1, StallAt: -1, CancelDelay: -1}
+		if stall {
+			plan.StallAt = 0 // the client stops reading at the first message and stays connected
+		}
+		fin := func() {
+			_ = recover()
+			mu.Lock()
+			finished[name] = true
+			mu.Unlock()
+		}
+		switch kind {
+		case "getdata":
+			st := world.NewFakeStream[*sdcpb.GetDataResponse](w.Ctx, name, plan, rc.Logf)
+			go func() {
+				defer fin()
+				w.Srv.GetData(&sdcpb.GetDataRequest{Name: world.DSName, Path: []*sdcpb.Path{root}, Datastore: &sdcpb.DataStore{Type: sdcpb.Type_MAIN}, Encoding: sdcpb.Encoding_STRING, DataType: sdcpb.DataType_CONFIG}, st)
+			}()
+			return st.End
+		case "subscribe":
+			st := world.NewFakeStream[*sdcpb.SubscribeResponse](w.Ctx, name, plan, rc.Logf)
+			go func() {
+				defer fin()
+				w.Srv.Subscribe(&sdcpb.SubscribeRequest{Name: world.DSName, Subscription: []*sdcpb.Subscription{{Path: []*sdcpb.Path{root}, SampleInterval: uint64(time.Second), DataType: sdcpb.DataType_CONFIG}}}, st)
+			}()
+			return st.End
+		default:
+			st := world.NewFakeStream[*sdcpb.WatchDeviationResponse](world.PeerCtx(w.Ctx, map[string]string{"A": "10.0.0.9:1001", "B": "10.0.0.9:1002"}[name]), name, plan, rc.Logf)
+			go func() {
+				defer fin()
+				w.Srv.WatchDeviations(&sdcpb.WatchDeviationRequest{Name: []string{world.DSName}}, st)
+			}()
+			return st.End
+		}
+	}
+	kinds := []string{"getdata", "subscribe", "watchdeviations"}
+	kindA := kinds[t.Choose(3)]
+	kindB := kinds[t.Choose(3)]
+	rc.Scenario("stream A=%s (open, client not reading) ; DeleteDataStore(nosuch) ; stream B=%s whose client goes away", kindA, kindB)
+	rc.SigAdd("writer|" + kindA + "|" + kindB)
+	endA := start("A", kindA, true)
+	spinUntil(func() bool { return false }, 300) // let A get going
+	go func() {
+		w.Srv.DeleteDataStore(w.Ctx, &sdcpb.DeleteDataStoreRequest{Name: "nosuch"})
+		mu.Lock()
+		finished["W"] = true
+		mu.Unlock()
+	}()
+	spinUntil(isDone("W"), 300)
+	endB := start("B", kindB, false)
+	spinUntil(func() bool { return false }, 100)
+	endB()
+	f := map[string]string{"rpc": kindB, "mode": "writer-queued", "open_stream": kindA, "subs": "0"}
+	if !spinUntil(isDone("B"), 200000) {
+		rc.Report(sim.Item{Prop: "C19", Clause: "C19.handler-hangs", Fields: f,
+			Detail: fmt.Sprintf("%s handler did not return after its client went away while a %s stream of another client is open and a DeleteDataStore call is queued (writer finished=%t): the handler waits for a lock that the open stream holds", kindB, kindA, isDone("W")())})
+	}
+	// let everything drain
+	endA()
+	if !spinUntil(func() bool { return isDone("A")() && isDone("B")() && isDone("W")() }, 400000) {
+		rc.HarnessErr("writer leg does not drain: A=%t B=%t W=%t", isDone("A")(), isDone("B")(), isDone("W")())
+	}
 }
 
 func contextWithCancel(w *world.World) (ctx2 context.Context, cancel func()) {
